@@ -435,11 +435,24 @@ func C13(x *Ctx) []Violation {
 	bad := func(oracle, format string, a ...any) {
 		vs = append(vs, Violation{"C13", oracle, fmt.Sprintf(format, a...)})
 	}
+	// Everything a parameter name can collide with on the import side: the final qualifiers, but also the
+	// package names and source aliases of the imported packages and every alias conflict resolution could
+	// have used on the way (a package may be registered under its plain name first and renamed later, after
+	// a parameter was already renamed because of it).
 	quals := map[string]bool{}
+	srcAliases := sourceAliases(x.World)
 	for _, ii := range imports(d) {
 		quals[ii.Qualifier] = true
+		if ii.Obj != nil {
+			quals[ii.Obj.Imported().Name()] = true
+		}
+		for a := range srcAliases[ii.Path] {
+			quals[a] = true
+		}
+		for _, sname := range suffixNames(ii.Path) {
+			quals[sname] = true
+		}
 	}
-	// names the source aliases might have introduced even if not imported in the end are irrelevant
 	for i := range ps {
 		p := &ps[i]
 		// world-side view of the interface (names as written by the user)
